@@ -1,0 +1,81 @@
+//go:build verif
+
+// Hooks for the verification harness in /verif (properties C01-C03, codec).
+// Add-only: nothing in this file is compiled without the `verif` build tag
+// and nothing here changes the behaviour of the package; it only exports
+// read access to the unexported type registries and to the unexported fields
+// of NodeID and Variant, plus raw constructors for those two types.
+
+package ua
+
+import (
+	"reflect"
+	"sort"
+)
+
+// VerifRegEntry is one entry of a type registry: the node id string the type
+// is registered under and the registered (pointer) type.
+type VerifRegEntry struct {
+	ID   string
+	Type reflect.Type
+}
+
+func verifEntries(r *TypeRegistry) []VerifRegEntry {
+	r.mu.Lock()
+	defer r.mu.Unlock()
+	out := make([]VerifRegEntry, 0, len(r.types))
+	for id, t := range r.types {
+		out = append(out, VerifRegEntry{ID: id, Type: t})
+	}
+	sort.Slice(out, func(i, j int) bool { return out[i].ID < out[j].ID })
+	return out
+}
+
+// VerifServiceTypes enumerates the service registry (svcreg), sorted by id.
+func VerifServiceTypes() []VerifRegEntry { return verifEntries(svcreg) }
+
+// VerifExtensionObjectTypes enumerates the extension object registry
+// (eotypes), sorted by id.
+func VerifExtensionObjectTypes() []VerifRegEntry { return verifEntries(eotypes) }
+
+// VerifFirstID returns the id Lookup reports for the type (the first one it
+// was registered under), "" if the type is not registered.
+func VerifFirstID(ext bool, t reflect.Type) string {
+	r := svcreg
+	if ext {
+		r = eotypes
+	}
+	r.mu.Lock()
+	defer r.mu.Unlock()
+	return r.ids[t]
+}
+
+// VerifVariantTypes returns the table Variant.Decode uses to map a type id to
+// the Go type of a scalar value.
+func VerifVariantTypes() map[TypeID]reflect.Type {
+	out := map[TypeID]reflect.Type{}
+	for k, v := range variantTypeIDToType {
+		out[k] = v
+	}
+	return out
+}
+
+// VerifNodeIDFields returns the raw fields of a node id.
+func VerifNodeIDFields(n *NodeID) (mask byte, ns uint16, nid uint32, bid []byte, gid *GUID) {
+	return byte(n.mask), n.ns, n.nid, n.bid, n.gid
+}
+
+// VerifRawNodeID builds a node id from raw field values (no validation).
+func VerifRawNodeID(mask byte, ns uint16, nid uint32, bid []byte, gid *GUID) *NodeID {
+	return &NodeID{mask: NodeIDType(mask), ns: ns, nid: nid, bid: bid, gid: gid}
+}
+
+// VerifVariantFields returns the raw fields of a variant.
+func VerifVariantFields(m *Variant) (mask byte, arrayLength, dimsLength int32, dims []int32, value interface{}) {
+	return m.mask, m.arrayLength, m.arrayDimensionsLength, m.arrayDimensions, m.value
+}
+
+// VerifRawVariant builds a variant from raw field values (no validation).
+func VerifRawVariant(mask byte, arrayLength, dimsLength int32, dims []int32, value interface{}) *Variant {
+	return &Variant{mask: mask, arrayLength: arrayLength, arrayDimensionsLength: dimsLength, arrayDimensions: dims, value: value}
+}
